@@ -20,6 +20,16 @@ extra columns are built so that their extremes sit in other frames (and outside 
 the progress coordinate.  The oracle recomputes every classification from the FIRST column
 only; order[1:] is payload that must survive reverse/copy/+=/paste unchanged.
 
+The LIMIT of a path (Path.maxlen: a number, or None = no limit) is part of what is compared:
+model/PathLimM.v carries the limit as `option nat` and the lim_* cases check that empty_path gives
+the limit it is asked for, reverse and copy the source's, paste the requested one (or the
+segments' common / larger one) -- None stays None -- and that a further frame offered to the
+returned path is accepted iff there is no limit or length < limit.  A family of LONG unlimited
+paths (more than DEFAULT_MAXLEN frames, value read from the implementation) evaluates the C15
+statements directly on the implementation (paste length and last frame, full reversal, reverse
+twice, copy): these paths are never sent to the model (unary naturals); the theorems about
+unlimited paths hold for every length.
+
 Every case is evaluated under a guard: an exception raised by the implementation, or an answer
 outside the domain of the property (an index outside the path, a value that is no progress
 coordinate, a malformed tuple ...), is a finding reported with the concrete input.
@@ -36,9 +46,9 @@ import common
 META = {
     "id": "C15",
     "level": "proof",
-    "technique": "Coq theorems over list model of Path (firstn/rev algebra, extreme values of the progress coordinate, opaque whole-frame payload) + exhaustive small-scope lock-step of extracted model vs Path/paste_paths on whole System objects with 1-3 order values per frame",
-    "text": "Unbounded theorems (any segment pair, limit, overlap flag, order sequence, interface list, any content of the frames' other fields) about an executable model of path.py; the model is tied to /repo by running the extracted model and the real Path methods on the same inputs (all sequences over a 5-letter alphabet up to the tier's length, all limits, both flags) and by evaluating the property's statement directly on the implementation's outputs: frames are whole System objects with a non-default value in every field the real class declares (discovered at run time) plus dynamically attached attributes, every attribute in vars(frame) must survive reverse-twice, copy, += and paste (a single reverse flips only vel_rev), re-assigning any attribute of a copied/reversed/added frame must not reach the original, and start, end, middle marker and crossing flags of check_interfaces (and get_start_point/get_end_point, ordermin/ordermax, success) are each recomputed from first/last/min/max of the FIRST order column. Frames carry 1, 2 and 3 order values: order[0] is the progress coordinate (the model's ford), order[1:] are extra collective variables generated so that their extremes lie in other frames than, and outside the range of, the progress coordinate; every exhaustive sequence meets all three numbers of columns in every group of cases (classification, reverse, copy, +=), pastes and random cases draw the number. Every case runs under a guard: an exception raised by the implementation, or an answer outside the property's domain (frame index outside the path, value that is no progress coordinate, malformed tuple, marker other than M/*), is reported as a failing input with the case as replay, never as a crash of the check.",
-    "note": "Trusted: Coq kernel; extraction (ExtrOcamlBasic) + OCaml driver; the Python harness and its generators. Frames are abstracted to (order[0], vel_rev, object id, payload): the model's frame carries the PROGRESS COORDINATE order[0] only; extra order columns order[1:] (further collective variables an OrderParameter may return) are PAYLOAD: no classification may depend on them (the oracle recomputes everything from the first column only) and they must survive reverse/copy/+=/paste unchanged (whole-frame oracle on vars(frame)['order'], and they are part of the interned payload the model carries). The payload (ftag : Z) is opaque in the model and stands for every other attribute in vars(frame) — config, order[1:], pos, vel, ekin, vpot, box, temperature, attributes attached after construction; the harness interns the canonical content (numpy arrays by shape/dtype/bytes, floats by hex) to one integer per distinct content, so a lost, added or altered attribute breaks both the oracle (concrete input reported) and the correspondence. The record was not widened by a separate field because model/PathM.v is shared with C09-C12 (their models and drivers build frames positionally); ftag already is that field. Equality of attributes is by value (a deep-copying System.copy would also pass); in-place mutation of a shared array through a copy is outside the property (it speaks of re-assigning a field). numpy argmin/argmax semantics mirrored as first index of the extreme. Floats: only integer-valued orders are used so comparisons are exact.",
+    "technique": "Coq theorems over list model of Path (firstn/rev algebra, extreme values of the progress coordinate, opaque whole-frame payload) + exhaustive small-scope lock-step of extracted model vs Path/paste_paths on whole System objects with 1-3 order values per frame; the limit field maxlen (a number or None = no limit) is modelled as option nat and compared, with a later append as its observable consequence; long unlimited paths (> DEFAULT_MAXLEN frames) by a direct oracle on the implementation only",
+    "text": "Unbounded theorems (any segment pair, limit, overlap flag, order sequence, interface list, any content of the frames' other fields) about an executable model of path.py; the model is tied to /repo by running the extracted model and the real Path methods on the same inputs (all sequences over a 5-letter alphabet up to the tier's length, all limits, both flags) and by evaluating the property's statement directly on the implementation's outputs: frames are whole System objects with a non-default value in every field the real class declares (discovered at run time) plus dynamically attached attributes, every attribute in vars(frame) must survive reverse-twice, copy, += and paste (a single reverse flips only vel_rev), re-assigning any attribute of a copied/reversed/added frame must not reach the original, and start, end, middle marker and crossing flags of check_interfaces (and get_start_point/get_end_point, ordermin/ordermax, success) are each recomputed from first/last/min/max of the FIRST order column. Frames carry 1, 2 and 3 order values: order[0] is the progress coordinate (the model's ford), order[1:] are extra collective variables generated so that their extremes lie in other frames than, and outside the range of, the progress coordinate; every exhaustive sequence meets all three numbers of columns in every group of cases (classification, reverse, copy, +=), pastes and random cases draw the number. Every case runs under a guard: an exception raised by the implementation, or an answer outside the property's domain (frame index outside the path, value that is no progress coordinate, malformed tuple, marker other than M/*), is reported as a failing input with the case as replay, never as a crash of the check. THE LIMIT FIELD: Path.maxlen is a number or None, and None means NO LIMIT (Path.append accepts when maxlen is None or length < maxlen). model/PathLimM.v repeats empty_path/append/copy/reverse/paste over paths whose limit is an option, proofs/PathPLim.v proves that on a numeric limit they ARE the operations of model/PathM.v (C15_limit_conservative, so the theorems above carry over), that reverse and copy return the source's limit and paste the requested one - or, when none is requested, the segments' common limit (None stays None) or the larger number (C15_limit_kept, C15_limit_paste, C15_limit_paste_rule) - that a path without limit is pasted, reversed, reversed twice and copied IN FULL whatever its length (C15_unlimited_paste_whole, C15_limit_reverse_frames, C15_limit_reverse_twice_whole, C15_limit_copy_whole: the hypothesis `fits` is True without a limit), and that an unlimited path, its copy, its reversal and the paste of unlimited segments accept every further frame while a numeric limit refuses exactly from that length on (C15_unlimited_accepts, C15_unlimited_paste_accepts, C15_limited_refuses). The lim_* cases tie this to /repo: empty_path(maxlen=None / a number / omitted, time_origin given / omitted), reverse and copy of every small sequence with maxlen=None and with a number, paste of all small pairs with unlimited segments (limit requested or not), equal and different numbers; compared are the frames, time_origin, the limit field itself and the answer of append to one further frame, and the oracle states: the returned path carries the right limit (None stays None) and append accepts iff no limit or length < limit - when an unlimited source comes back with a number, the consequence is demonstrated on the returned path (filled to the claimed limit, the next append is refused although no limit was set). LONG UNLIMITED PATHS (implementation only): paths with maxlen=None holding more than DEFAULT_MAXLEN frames (value read from infretis.classes.path at run time; bare System frames) - paste of two unlimited segments has len(back)+len(forw)-shared point frames, begins with the last backward and ends with the last forward frame and consists of exactly the segments' frame objects; reverse is the full reversal with flipped flags, reverse twice restores, start/end classification swaps; copy holds every frame as a new object; all results stay unlimited. These paths are NOT sent to the extracted model (its naturals are unary): the oracle is direct, and the theorems about unlimited paths are unbounded in the length.",
+    "note": "Trusted: Coq kernel; extraction (ExtrOcamlBasic) + OCaml driver; the Python harness and its generators. Frames are abstracted to (order[0], vel_rev, object id, payload): the model's frame carries the PROGRESS COORDINATE order[0] only; extra order columns order[1:] (further collective variables an OrderParameter may return) are PAYLOAD: no classification may depend on them (the oracle recomputes everything from the first column only) and they must survive reverse/copy/+=/paste unchanged (whole-frame oracle on vars(frame)['order'], and they are part of the interned payload the model carries). The payload (ftag : Z) is opaque in the model and stands for every other attribute in vars(frame) — config, order[1:], pos, vel, ekin, vpot, box, temperature, attributes attached after construction; the harness interns the canonical content (numpy arrays by shape/dtype/bytes, floats by hex) to one integer per distinct content, so a lost, added or altered attribute breaks both the oracle (concrete input reported) and the correspondence. The record was not widened by a separate field because model/PathM.v is shared with C09-C12 (their models and drivers build frames positionally); ftag already is that field. Equality of attributes is by value (a deep-copying System.copy would also pass); in-place mutation of a shared array through a copy is outside the property (it speaks of re-assigning a field). numpy argmin/argmax semantics mirrored as first index of the extreme. Floats: only integer-valued orders are used so comparisons are exact. Limit field: model/PathM.v (shared with C09-C12) keeps maxlen : nat untouched; the option-valued limit lives in the added model/PathLimM.v + proofs/PathPLim.v and is connected to it by `lift` (C15_limit_conservative). The long-unlimited-path family is implementation-only (direct oracle, no model comparison: 100000-frame paths in unary naturals are not sent to the runner); it is skipped, and the coverage record says so, if DEFAULT_MAXLEN cannot be read or exceeds 400000. paste_paths with NO requested limit and EXACTLY ONE unlimited segment is outside the property (no limit is defined for the result): the code as it is raises TypeError (max(None, int)), the model answers the same (paste_limit = None, C15_limit_paste_rule says exactly when) and a few such cases are compared, without an oracle.",
     "design_ref": "4/C15",
 }
 LEVEL = "proof"
@@ -325,6 +335,27 @@ class Frames:
         return t
 
 
+def enc_limit(ml):
+    """The limit field of a path for the model: a number, N = None (no limit), ?... = anything else."""
+    if ml is None:
+        return "N"
+    if isinstance(ml, (int, np.integer)) and not isinstance(ml, (bool, np.bool_)) and ml >= 0:
+        return str(int(ml))
+    return f"?{ml!r}".replace(" ", "")
+
+
+def same_limit(got, want):
+    """The limit field [got] of a returned path is the limit [want] (None stays None, a number stays that number)."""
+    if want is None or got is None:
+        return want is None and got is None
+    return isinstance(got, (int, np.integer)) and not isinstance(got, (bool, np.bool_)) and int(got) == want
+
+
+def has_room(limit, n):
+    """Path.append as the property reads it: a path of n frames accepts a further frame iff it has no limit or n < limit."""
+    return limit is None or n < limit
+
+
 class Ids:
     """Object identities: originals get 0.., new objects are numbered in order of appearance."""
 
@@ -351,8 +382,7 @@ class Ids:
             rv = getattr(s, "vel_rev", None)
             rv = str(int(bool(rv))) if isinstance(rv, (bool, int)) or type(rv).__name__ == "bool_" else "?"
             fr.append(f"{o}:{self.F.tag(s, ws[n] if ws else None)}:{rv}:{self.ids[id(s)]}")
-        ml = p.maxlen
-        return f"{','.join(fr) if fr else '-'}|{ml}|{p.time_origin}"
+        return f"{','.join(fr) if fr else '-'}|{enc_limit(getattr(p, 'maxlen', '<missing>'))}|{p.time_origin}"
 
 
 def side(x):
@@ -485,6 +515,315 @@ def case_iadd(F, d, box):
     return req, out, err
 
 
+# ----------------------------------------------------------------------------- the limit field
+# Path.maxlen is a number or None = NO LIMIT (Path.append: "self.maxlen is None or self.length < self.maxlen").
+# The cases below compare the limit field itself (model/PathLimM.v: limit = option nat) and what it means for a
+# later append: the path an operation returns must carry the right limit -- reverse/copy the source's, paste the
+# requested one (or the segments' common / larger one), empty_path the one it is asked for; None stays None.
+
+def probe_path(F, d, tag0):
+    """A one-frame path holding the frame that is offered to the returned path afterwards."""
+    return F.mk_path((0,), 1, tag0=tag0, style="sparse", ncol=1)
+
+
+def refused_although_unlimited(res, frame):
+    """Property-level consequence of a wrong limit field, demonstrated on the returned path itself: fill it up
+    to the limit it claims (references to one frame: cheap) and offer one more frame."""
+    ml = getattr(res, "maxlen", None)
+    if not isinstance(ml, int) or isinstance(ml, bool) or not 0 <= ml <= 3_000_000:
+        return ""
+    try:
+        res.phasepoints.extend([frame] * max(ml - res.length, 0))
+        n = res.length
+        ok = res.append(frame)
+    except Exception as e:
+        return f"; offering frames up to that limit raised {e!r}"
+    if ok:
+        return ""
+    return (f"; consequence: holding {n} frames the returned path REFUSES a further frame (append() returned {ok!r}) "
+            f"although no limit was set")
+
+
+def limit_oracle(what, res, want, n_expected, probe_ok, frame):
+    """The limit field of the returned path and the answer of a later append, against the limit [want]."""
+    got = getattr(res, "maxlen", "<missing>")
+    if not same_limit(got, want):
+        extra = refused_although_unlimited(res, frame) if want is None else ""
+        return (f"{what} returned a path with maxlen={got!r}; it must carry maxlen={want!r} "
+                f"({'None = no limit' if want is None else 'the limit that applies'}){extra}")
+    if bool(probe_ok) != has_room(want, n_expected):
+        return (f"{what}: a further frame offered to the returned path ({n_expected} frames, limit {want!r}) was "
+                f"{'accepted' if probe_ok else 'refused'}; append must accept iff there is no limit or length < limit")
+    return None
+
+
+def case_lim_empty(F, d, box):
+    from infretis.classes.path import DEFAULT_MAXLEN, Path
+    src = Path(maxlen=d["src_maxlen"], time_origin=11)
+    probe = probe_path(F, d, 900)
+    ids = Ids(F, probe)
+    pf = ids.enc_path(probe).split("|")[0]
+    kw = {}
+    if d["limit"] != "default":
+        kw["maxlen"] = d["limit"]
+    if d["time_origin"] != "default":
+        kw["time_origin"] = d["time_origin"]
+    want = DEFAULT_MAXLEN if d["limit"] == "default" else d["limit"]
+    t0 = 0 if d["time_origin"] == "default" else d["time_origin"]
+    req = box["req"] = f"lempty {enc_limit(want)} {t0} {pf}"
+    e = src.empty_path(**kw)
+    n0 = e.length
+    out = ids.enc_path(e)
+    ok = e.append(probe.phasepoints[0])
+    out += f" {int(bool(ok))}"
+    err = None
+    if type(e) is not type(src):
+        err = f"empty_path({kw}) returned a {type(e).__name__}, not a path of the same class"
+    elif n0 != 0 or e.time_origin != t0:
+        err = f"empty_path({kw}) returned a path with {n0} frames and time_origin {e.time_origin!r}; expected an empty path with time_origin {t0}"
+    else:
+        err = limit_oracle(f"empty_path({', '.join(f'{k}={v!r}' for k, v in kw.items())})", e, want, 0, ok, probe.phasepoints[0])
+    return req, out, err
+
+
+def case_lim_reverse(F, d, box):
+    s, revs, ml, rv = d["orders"], d["revs"], d["maxlen"], d["rev_v"]
+    p = P(F, d, s, ml, t0=3, revs=revs)
+    probe = probe_path(F, d, 900)
+    sp = snap(p)
+    ids = Ids(F, p, probe)
+    pf = ids.enc_path(probe).split("|")[0]
+    req = box["req"] = f"lreverse {ids.next} {ids.enc_path(p, sp)} {int(rv)} {pf}"
+    r = p.reverse(None, rev_v=rv)
+    sr = snap(r)
+    out = ids.enc_path(r, sr)
+    fits = ml is None or len(s) <= ml
+    rr = r.reverse(None, rev_v=rv) if fits else None
+    nr = r.length
+    ok = r.append(probe.phasepoints[0])
+    out += f" {int(bool(ok))}"
+    what = f"reverse of a path with maxlen={ml!r} ({len(s)} frames)"
+    err = diff_frames("reverse changed the original path", snap(p), sp)
+    if not err and not same_limit(getattr(p, "maxlen", "<missing>"), ml):
+        err = f"reverse changed the limit of the original path to {p.maxlen!r}"
+    if not err and fits:
+        err = diff_frames(f"{what} must reverse the frame order and change nothing but the velocity flag",
+                          sr, [flipped(w, rv) for w in reversed(sp)])
+    if not err:
+        err = limit_oracle(what, r, ml, min(len(s), ml) if ml is not None else len(s), ok, probe.phasepoints[0])
+    if not err and fits:
+        err = diff_frames("reversing twice does not restore the frames", snap(rr), sp)
+        if not err and not same_limit(getattr(rr, "maxlen", "<missing>"), ml):
+            err = f"reversing a path with maxlen={ml!r} twice returned a path with maxlen={rr.maxlen!r}"
+    return req, out, err
+
+
+def case_lim_copy(F, d, box):
+    s, revs, ml = d["orders"], d["revs"], d["maxlen"]
+    p = P(F, d, s, ml, t0=3, revs=revs)
+    probe = probe_path(F, d, 900)
+    sp = snap(p)
+    ids = Ids(F, p, probe)
+    pf = ids.enc_path(probe).split("|")[0]
+    req = box["req"] = f"lcopy {ids.next} {ids.enc_path(p, sp)} {pf}"
+    c = p.copy()
+    sc = snap(c)
+    out = ids.enc_path(c, sc)
+    ok = c.append(probe.phasepoints[0])
+    out += f" {int(bool(ok))}"
+    fits = ml is None or len(s) <= ml
+    what = f"copy of a path with maxlen={ml!r} ({len(s)} frames)"
+    err = diff_frames("copy changed the original path", snap(p), sp)
+    if not err and not same_limit(getattr(p, "maxlen", "<missing>"), ml):
+        err = f"copy changed the limit of the original path to {p.maxlen!r}"
+    if not err and fits:
+        err = diff_frames("the frames of a copied path differ from the original's", sc, sp)
+    if not err and c.time_origin != p.time_origin:
+        err = f"{what}: time_origin {c.time_origin!r}, the original has {p.time_origin!r}"
+    if not err:
+        err = limit_oracle(what, c, ml, min(len(s), ml) if ml is not None else len(s), ok, probe.phasepoints[0])
+    return req, out, err
+
+
+def paste_limit(req, bml, fml):
+    """The limit of a pasted path: the requested one; when none is requested the segments' common limit (None stays
+    None) or the larger number.  'undefined' when no limit is requested and exactly one segment is unlimited (the
+    code as it is raises TypeError there: max(None, int))."""
+    if req is not None:
+        return req
+    if bml is None and fml is None:
+        return None
+    if bml is None or fml is None:
+        return "undefined"
+    return max(bml, fml)
+
+
+def case_lim_paste(F, d, box):
+    from infretis.classes.path import paste_paths
+    b, f, ov, m = d["back"], d["forw"], d["overlap"], d["maxlen"]
+    bml, fml = d["back_maxlen"], d["forw_maxlen"]
+    back = P(F, d, b, bml, t0=d["t0"], tag0=0)
+    forw = P(F, d, f, fml, t0=d["t0"], tag0=d["tag_forw"])
+    probe = probe_path(F, d, 900)
+    sb, sf = snap(back), snap(forw)
+    ids = Ids(F, back, forw, probe)
+    pf = ids.enc_path(probe).split("|")[0]
+    req = box["req"] = f"lpaste {ids.enc_path(back, sb)} {ids.enc_path(forw, sf)} {int(ov)} {enc_limit(m)} {pf}"
+    want = paste_limit(m, bml, fml)
+    if want == "undefined":
+        # outside the property (no limit applies); the model mirrors the code as it is: TypeError
+        try:
+            res = paste_paths(back, forw, overlap=ov, maxlen=m)
+        except TypeError:
+            return req, "TYPEERROR", None
+        return req, ids.enc_path(res) + " ?", None
+    res = paste_paths(back, forw, overlap=ov, maxlen=m)
+    sr = snap(res)
+    out = ids.enc_path(res, sr)
+    nr = res.length
+    ok = res.append(probe.phasepoints[0])
+    out += f" {int(bool(ok))}"
+    full = list(reversed(sb)) + list(sf[1:] if ov else sf)
+    wantf = full if want is None else full[:want]
+    what = (f"paste_paths(back: {len(b)} frames maxlen={bml!r}, forw: {len(f)} frames maxlen={fml!r}, overlap={ov}, "
+            f"maxlen={'not given' if m is None else m})")
+    err = None
+    if len(sr) != len(wantf):
+        err = (f"{what}: {len(sr)} frames, expected {len(wantf)} = len(back)+len(forw)-shared point"
+               f"{'' if want is None else f' truncated at {want}'}")
+    elif b and (want is None or want > 0) and res.phasepoints[0] is not back.phasepoints[-1]:
+        err = f"{what}: the pasted path does not begin with the last backward frame"
+    else:
+        err = (diff_frames(f"{what} does not keep the frames", sr, wantf)
+               or diff_frames("paste changed the backward segment", snap(back), sb)
+               or diff_frames("paste changed the forward segment", snap(forw), sf))
+    if not err and not (same_limit(back.maxlen, bml) and same_limit(forw.maxlen, fml)):
+        err = f"{what} changed the limit of a segment to {back.maxlen!r}/{forw.maxlen!r}"
+    if not err:
+        err = limit_oracle(what, res, want, len(wantf), ok, probe.phasepoints[0])
+    return req, out, err
+
+
+# ----------------------------------------------------------------------------- long unlimited paths
+# Implementation-only family (no model request): paths without limit holding MORE than DEFAULT_MAXLEN frames
+# (the value is read from the implementation at run time).  The model's naturals are unary, so paths of this
+# length are never sent to the extracted runner; the C15 statements are evaluated directly (theorems
+# C15_unlimited_paste_whole, C15_limit_reverse_frames, C15_limit_reverse_twice_whole, C15_limit_copy_whole say
+# what must come out for ANY length).  Frames are bare System objects: config, order, vel_rev set, the other
+# fields (taken from vars(System()) at run time) at their defaults; compared by (config, order[0], vel_rev, number of attributes) and by identity.
+
+LONG_CAP = 400_000      # the family is skipped (and said so in the coverage record) above this DEFAULT_MAXLEN
+
+
+def long_path(n, start, rev):
+    from infretis.classes.path import Path
+    from infretis.classes.system import System
+    p = Path(maxlen=None)
+    pts = p.phasepoints
+    defaults = dict(vars(System()))       # the fields the real class declares; their default values are shared by the frames
+    new = System.__new__
+    for i in range(start, start + n):
+        s = new(System)
+        d = dict(defaults)
+        d["config"] = ("traj", i)
+        d["order"] = [float(i % 1024)]
+        d["vel_rev"] = rev
+        s.__dict__ = d
+        pts.append(s)
+    return p
+
+
+def long_sig(path):
+    return [(s.config, s.order[0], s.vel_rev, len(vars(s))) for s in path.phasepoints]
+
+
+def first_difference(got, want):
+    if len(got) != len(want):
+        return f"{len(got)} frames, expected {len(want)}"
+    for i, (g, w) in enumerate(zip(got, want)):
+        if g != w:
+            return f"frame {i} is (config, order, vel_rev, #attributes) = {g!r}, expected {w!r}"
+    return None
+
+
+def case_long_paste(F, d, box):
+    from infretis.classes.path import paste_paths
+    nb, nf, ov = d["nback"], d["nforw"], d["overlap"]
+    back, forw = long_path(nb, 0, True), long_path(nf, 10 * (nb + nf), False)
+    res = paste_paths(back, forw, overlap=ov)
+    want = list(reversed(back.phasepoints)) + forw.phasepoints[1 if ov else 0:]
+    what = (f"paste_paths of two UNLIMITED segments (maxlen=None; {nb} backward + {nf} forward frames, overlap={ov}; "
+            f"DEFAULT_MAXLEN={d['default_maxlen']})")
+    out = f"{res.length} frames, maxlen={res.maxlen!r}"
+    err = None
+    if res.length != len(want):
+        err = (f"{what}: {res.length} frames, expected {len(want)} = len(back)+len(forw){'-1 (shared point)' if ov else ''}: "
+               f"nothing may be truncated without a limit")
+    elif res.phasepoints[0] is not back.phasepoints[-1]:
+        err = f"{what}: the pasted path does not begin with the last backward frame"
+    elif res.phasepoints[-1] is not forw.phasepoints[-1]:
+        err = f"{what}: the last frame is not the last forward frame"
+    else:
+        bad = next((i for i, (a, w) in enumerate(zip(res.phasepoints, want)) if a is not w), None)
+        if bad is not None:
+            err = f"{what}: frame {bad} is not the frame of the segments that belongs there"
+    if not err and res.maxlen is not None:
+        err = f"{what} returned a path with maxlen={res.maxlen!r}; it must be unlimited (None)"
+    if not err and (back.length, forw.length) != (nb, nf):
+        err = f"{what} changed the length of a segment"
+    return None, out, err
+
+
+def case_long_reverse(F, d, box):
+    n, rv = d["n"], d["rev_v"]
+    p = long_path(n, 0, False)
+    before = long_sig(p)
+    r = p.reverse(None, rev_v=rv)
+    what = f"reverse(rev_v={rv}) of an UNLIMITED path (maxlen=None) of {n} frames (DEFAULT_MAXLEN={d['default_maxlen']})"
+    out = f"{r.length} frames, maxlen={r.maxlen!r}"
+    want = [(c, o, (not v) if rv else v, k) for c, o, v, k in reversed(before)]
+    err = first_difference(long_sig(r), want)
+    if err:
+        err = f"{what} is not the full reversal: {err}"
+    elif r.maxlen is not None:
+        err = f"{what} returned a path with maxlen={r.maxlen!r}; it must be unlimited (None)"
+    else:
+        rr = r.reverse(None, rev_v=rv)
+        e2 = first_difference(long_sig(rr), before)
+        if e2:
+            err = f"{what}: reversing twice does not restore the frames: {e2}"
+        elif any(a is b for a, b in zip(r.phasepoints, reversed(p.phasepoints))):
+            err = f"{what} shares frame objects with the original"
+        elif ((side(r.get_start_point(100, 900)), side(r.get_end_point(100, 900)))
+              != (side(p.get_end_point(100, 900)), side(p.get_start_point(100, 900)))):
+            err = f"{what}: the reversed path does not start where the original ends / end where it starts"
+    if not err and long_sig(p) != before:
+        err = f"{what} changed the original path"
+    return None, out, err
+
+
+def case_long_copy(F, d, box):
+    n = d["n"]
+    p = long_path(n, 0, False)
+    before = long_sig(p)
+    c = p.copy()
+    what = f"copy of an UNLIMITED path (maxlen=None) of {n} frames (DEFAULT_MAXLEN={d['default_maxlen']})"
+    out = f"{c.length} frames, maxlen={c.maxlen!r}"
+    err = first_difference(long_sig(c), before)
+    if err:
+        err = f"{what} does not hold the frames of the original: {err}"
+    elif c.maxlen is not None:
+        err = f"{what} has maxlen={c.maxlen!r}; it must be unlimited (None)"
+    elif any(a is b for a, b in zip(c.phasepoints, p.phasepoints)):
+        err = f"{what} shares frame objects with the original"
+    else:
+        c.phasepoints[-1].order = ("c15-reassigned",)
+        c.phasepoints[0].vel_rev = "c15-reassigned"
+        if long_sig(p) != before:
+            err = f"{what}: re-assigning a field of a copied frame changed the original"
+    return None, out, err
+
+
 def dec_extreme(name, t, n):
     """(value, index) answered by ordermin/ordermax as exact integers, or OutOfDomain."""
     try:
@@ -597,11 +936,16 @@ def case_success(F, d, box):
 
 
 CASES = {"paste": case_paste, "reverse": case_reverse, "copy": case_copy, "iadd": case_iadd,
-         "extremes": case_extremes, "check_interfaces": case_ci, "start_end": case_se, "success": case_success}
+         "extremes": case_extremes, "check_interfaces": case_ci, "start_end": case_se, "success": case_success,
+         "lim_empty": case_lim_empty, "lim_reverse": case_lim_reverse, "lim_copy": case_lim_copy, "lim_paste": case_lim_paste,
+         "long_paste": case_long_paste, "long_reverse": case_long_reverse, "long_copy": case_long_copy}
+IMPL_ONLY = ("long_paste", "long_reverse", "long_copy")     # no model request: evaluated on the implementation only
+ONE_COLUMN = IMPL_ONLY + ("lim_empty",)                     # operations whose cases do not vary the number of order values
 
 
 def brief(d):
-    keys = ("orders", "interfaces", "left", "right", "target", "back", "forw", "overlap", "maxlen", "p", "other", "rev_v", "ncol", "style")
+    keys = ("orders", "interfaces", "left", "right", "target", "back", "forw", "overlap", "maxlen", "back_maxlen", "forw_maxlen", "limit",
+            "time_origin", "nback", "nforw", "n", "p", "other", "rev_v", "ncol", "style")
     return ", ".join(f"{k}={d[k]!r}" for k in keys if k in d)
 
 
@@ -673,6 +1017,24 @@ def run(ctx):
                 add({"op": "paste", "back": b, "forw": f, "overlap": ov, "maxlen": m, "back_maxlen": 10, "forw_maxlen": 10,
                      "t0": 7, "tag_forw": 100, "style": style(), "ncol": ncols()}, "paste")
 
+    # ---------------- the limit field: empty_path for every kind of limit; paste of all pairs up to length 2 with
+    # unlimited segments (no limit requested / a requested number), equal and different numbers, and the mixed
+    # case (exactly one segment unlimited, nothing requested: TypeError in the code as it is, mirrored by the model)
+    for lim in (None, 0, 1, 2, 7, "default"):
+        for t0 in (0, -3, 4, "default"):
+            for src in (None, 5):
+                add({"op": "lim_empty", "limit": lim, "time_origin": t0, "src_maxlen": src, "style": "sparse", "ncol": 1}, "lim_empty")
+    tiny = [s for s in seqs if len(s) <= 2]
+    for b in tiny:
+        for f in tiny:
+            n = len(b) + len(f)
+            combos = [(None, None, None), (None, None, max(n - 1, 0)), (None, None, 1), (None, 3, n + 1), (n, n, None),
+                      (max(n - 2, 0), max(n - 1, 0), None), (None, 4, None), (2, None, None)]
+            for bml, fml, m in combos:
+                for ov in (True, False):
+                    add({"op": "lim_paste", "back": b, "forw": f, "overlap": ov, "maxlen": m, "back_maxlen": bml, "forw_maxlen": fml,
+                         "t0": 7, "tag_forw": 100, "style": style(), "ncol": ncols()}, "lim_paste")
+
     # ---------------- reverse / copy / iadd / extremes / classification on every sequence
     intf_sets_zero = [(-2, -1, 0), (-2, 0), (-2, -2, 0), (0, 0, 0), (-1, 0, 1), (0, 1), (-3, 0)]
     intf_sets = [(1, 2, 3), (1, 1, 3), (1, 3, 3), (2, 2, 2), (3, 2, 1), (0, 2, 4), (1, 2), (2, 1, 3, 0), (0, 4, 4), (1, 0, 3)]
@@ -694,6 +1056,12 @@ def run(ctx):
             for rv in (True, False):
                 add({"op": "reverse", "orders": s, "revs": revs, "maxlen": ml, "rev_v": rv, "style": style(), "ncol": k}, "reverse")
             add({"op": "copy", "orders": s, "revs": revs, "maxlen": ml, "style": style(), "ncol": k}, "copy")
+        # the limit field: no limit (None) for every sequence, a number (room to spare / one frame short) in turn
+        k = nc()
+        for ml in (None, len(s) + 2 if turn % 2 else max(len(s) - 1, 0)):
+            for rv in (True, False):
+                add({"op": "lim_reverse", "orders": s, "revs": revs, "maxlen": ml, "rev_v": rv, "style": style(), "ncol": k}, "lim_reverse")
+            add({"op": "lim_copy", "orders": s, "revs": revs, "maxlen": ml, "style": style(), "ncol": k}, "lim_copy")
         turn += 1       # the next sequence starts one further
         if len(s) <= 3:
             for o in short[:: max(1, len(short) // 12)]:
@@ -744,6 +1112,51 @@ def run(ctx):
             add({"op": "check_interfaces", "orders": s, "interfaces": intf, "style": style(), "ncol": k}, "check_interfaces_random")
             add({"op": "success", "orders": s, "target": intf[1], "style": style(), "ncol": k}, "success_random")
 
+    for _ in range(nrand // 2):
+        b = tuple(rng.randrange(-50, 50) for _ in range(rng.randrange(0, 30)))
+        f = tuple(rng.randrange(-50, 50) for _ in range(rng.randrange(0, 30)))
+        u = rng.random()
+        if u < 0.4:
+            bml, fml, m = None, None, None
+        elif u < 0.6:
+            bml, fml, m = None, None, rng.randrange(0, 70)
+        elif u < 0.8:
+            bml, fml, m = rng.choice([None, 40]), rng.choice([None, 45]), rng.randrange(0, 70)
+        else:
+            bml = rng.randrange(1, 60)
+            fml, m = rng.choice([bml, rng.randrange(1, 60)]), None
+        add({"op": "lim_paste", "back": b, "forw": f, "overlap": rng.random() < 0.5, "maxlen": m, "back_maxlen": bml, "forw_maxlen": fml,
+             "t0": rng.randrange(-5, 5), "tag_forw": 1000, "style": style(), "ncol": ncols()}, "lim_paste_random")
+        s = tuple(rng.randrange(-50, 50) for _ in range(rng.randrange(1, 30)))
+        revs = [rng.random() < 0.5 for _ in s]
+        ml = rng.choice([None, None, len(s) + rng.randrange(0, 5), max(len(s) - rng.randrange(1, 4), 0)])
+        add({"op": "lim_reverse", "orders": s, "revs": revs, "maxlen": ml, "rev_v": rng.random() < 0.7, "style": "full", "ncol": ncols()}, "lim_reverse_random")
+        add({"op": "lim_copy", "orders": s, "revs": revs, "maxlen": ml, "style": "full", "ncol": ncols()}, "lim_copy_random")
+
+    # ---------------- long unlimited paths (> DEFAULT_MAXLEN frames), implementation only
+    long_note = None
+    try:
+        from infretis.classes.path import DEFAULT_MAXLEN as dm
+    except Exception as e:
+        dm, long_note = None, f"not evaluated: infretis.classes.path.DEFAULT_MAXLEN cannot be read ({e!r})"
+    if dm is not None and (not isinstance(dm, int) or isinstance(dm, bool) or dm < 0):
+        long_note = f"not evaluated: DEFAULT_MAXLEN = {dm!r} is not a number of frames"
+    elif dm is not None and dm > LONG_CAP:
+        long_note = f"not evaluated: DEFAULT_MAXLEN = {dm} is above the cap {LONG_CAP} of this family"
+    if long_note is None:
+        rounds = 1 if ctx.tier == "quick" else 3
+        for rnd in range(rounds):
+            nb = dm * 3 // 5 + rng.randrange(0, 50)
+            nf = dm - nb + rng.randrange(2, 40)          # len(back) + len(forw) - 1 > DEFAULT_MAXLEN
+            for ov in (True, False):
+                add({"op": "long_paste", "nback": nb, "nforw": nf, "overlap": ov, "default_maxlen": dm, "style": "bare", "ncol": 1}, "long_paste")
+            n = dm + rng.randrange(3, 40)
+            for rv in ((True,) if ctx.tier == "quick" else (True, False) if rnd == 0 else (rng.random() < 0.5,)):
+                add({"op": "long_reverse", "n": n, "rev_v": rv, "default_maxlen": dm, "style": "bare", "ncol": 1}, "long_reverse")
+            add({"op": "long_copy", "n": n, "default_maxlen": dm, "style": "bare", "ncol": 1}, "long_copy")
+        long_note = f"{sum(1 for c in cases if c[3]['op'] in IMPL_ONLY)} cases with more than DEFAULT_MAXLEN = {dm} frames"
+    ctx.cov["long_unlimited_paths"] = long_note
+
     reqs = [c[0] for c in cases if c[0] is not None]
     try:
         outs = runner.run(reqs)
@@ -758,7 +1171,12 @@ def run(ctx):
     seen_ops = set()
     answers = []
     for req, io, err, desc in cases:
-        mo = (next(it) if it is not None else "<model runner failed>") if req is not None else "<no request: the input could not be built>"
+        impl_only = desc["op"] in IMPL_ONLY
+        if req is not None:
+            mo = next(it) if it is not None else "<model runner failed>"
+        else:
+            mo = ("<implementation-only case: paths of this length are not sent to the model (unary naturals)>" if impl_only
+                  else "<no request: the input could not be built>")
         answers.append(mo)
         ctx.count(req if req is not None else repr(desc), nontrivial=True)
         if err:
@@ -769,10 +1187,13 @@ def run(ctx):
             seen_ops.add((desc["op"], kind))
             ctx.violation(f"C15 statement fails on the implementation: {err}",
                           {"case": desc, "impl": io, "model": mo, "request": req, "kind": kind,
-                           "frames": "System objects built by checks/c15.py Frames.mk_path(orders, ..., style, ncol): order = [progress coordinate] + "
+                           "frames": "long_* cases: bare System objects built by checks/c15.py long_path(n, start, rev) (config=('traj', i), order=[i % 1024], vel_rev), paths with maxlen=None, implementation only; all other cases: "
+                                     "System objects built by checks/c15.py Frames.mk_path(orders, ..., style, ncol): order = [progress coordinate] + "
                                      "extra_columns(orders, ncol) (ncol = order values per frame; only the FIRST is the progress coordinate the oracle uses); "
                                      "style 'full' = every field of vars(System()) non-default + attached c15_note/c15_thermostat, 'sparse' = "
                                      "order/config/vel_rev/vpot only; k = position (+ tag offset of the segment); --replay rebuilds them and re-runs the real code"}, True)
+        elif impl_only:
+            pass          # nothing to compare: the oracle above is the whole evaluation
         elif it is not None and mo != io:
             corr_fail += 1
             if corr_fail <= 3:
@@ -805,7 +1226,7 @@ def run(ctx):
         if not_touched:
             ctx.violation(f"copy-independence clause was not evaluated for fields {not_touched}",
                           {"obligation": "re-assignment of every field of a copied frame", "declared": F.declared}, False)
-        thin = sorted(op for op in CASES if multi.get(op) != set(NCOLS))
+        thin = sorted(op for op in CASES if op not in ONE_COLUMN and multi.get(op) != set(NCOLS))
         if thin:
             ctx.violation(f"operations {thin} were not evaluated with {list(NCOLS)} order values per frame",
                           {"obligation": "every operation meets frames with extra order columns", "seen": {k: sorted(v) for k, v in multi.items()}}, False)
@@ -818,12 +1239,19 @@ def run(ctx):
                        f"(fields {F.declared} from the real class + attached {list(DYNAMIC)}, all non-default; 15% of the cases use sparse frames with default fields) "
                        f"carrying {list(NCOLS)} order values (every sequence meets all three in every group: extremes x3, the others in turn; order[0] = progress coordinate, "
                        f"order[1:] = extra columns whose extremes lie in other frames and outside the progress range); the oracle uses the first column only; "
-                       f"a case is distinct by its request line; all are non-trivial (each exercises a modelled operation)")
+                       f"the LIMIT FIELD (maxlen, None = no limit) is compared for empty_path (6 kinds of limit x 4 time origins x 2 sources), reverse and copy of every "
+                       f"sequence with maxlen=None and with a number, paste of all (back,forw) pairs up to length 2 x 8 limit combinations (unlimited segments with and without a "
+                       f"requested limit, equal / different numbers, exactly one unlimited segment = TypeError in code and model) x 2 flags, {nrand // 2} random pastes/reverses/copies with "
+                       f"None limits; each of these offers one further frame to the returned path (append accepted iff no limit or length < limit); "
+                       f"long unlimited paths, implementation only: {long_note}; "
+                       f"a case is distinct by its request line (implementation-only cases by their description); all are non-trivial (each exercises a modelled operation)")
     ctx.cov["correspondence"] = {"compared": len(reqs), "disagreements": corr_fail, "oracle_failures": stmt_fail,
                                  "distinct_payloads": len(F.tags), "system_fields": F.declared, "attached_fields": list(DYNAMIC),
                                  "order_values_per_frame": {op: sorted(v) for op, v in sorted(multi.items())}}
     ctx.cov["trusted_base"] += ["extraction: ExtrOcamlBasic only; ocaml/util.ml + ocaml/c15_driver.ml", "py/checks/c15.py generators, canonical form of attribute values and encoders"]
-    ctx.assumptions += ["progress coordinates (order[0]) are integer-valued floats, extra order columns exact dyadic floats (exact comparisons)",
+    ctx.assumptions += ["paths longer than DEFAULT_MAXLEN are evaluated on the implementation only (direct oracle; the model's naturals are unary), the theorems about unlimited paths hold for any length",
+                        "paste_paths with no requested limit and exactly one unlimited segment is outside the property (no limit is defined; the code raises TypeError, the model mirrors it)",
+                        "progress coordinates (order[0]) are integer-valued floats, extra order columns exact dyadic floats (exact comparisons)",
                         "System reduced to (order[0] = progress coordinate, vel_rev, object identity, payload = interned content of every other attribute in vars(frame), order[1:] included)",
                         "an order list has 1 to 3 entries; only order[0] is interpreted by the property, the extra collective variables are payload",
                         "attribute equality is by value (numpy arrays by shape/dtype/bytes)"]
